@@ -541,6 +541,14 @@ impl Association {
         // master timeout and here we go, we're now in the same situation as a video call with a 3 seconds
         // lag, each waiting for the other to talk, but end up talking at the same time.
         if self.is_integrity_complete() || response.raw_objects.is_empty() {
+            // A fragment whose objects cannot be parsed is not accepted: nothing can be delivered
+            // to the handler, so it must not be confirmed either (the outstation would discard
+            // the events it carries)
+            if let Err(err) = response.objects {
+                tracing::warn!("ignoring unsolicited response with malformed objects: {err}");
+                return false;
+            }
+
             // Update last fragment received
             let new_frag = LastUnsolFragment::new(response);
             let last_frag = self.last_unsol_frag.replace(new_frag);
